@@ -75,7 +75,7 @@ def build(B):
             h = hashlib.sha256("\n".join(lst + wrap).encode()).hexdigest()[:20]
             so = os.path.join(cache, h + ".so")
             if not os.path.exists(so):
-                tmp = so + ".tmp%d" % os.getpid()
+                tmp = so + ".tmp%d_%d" % (os.getpid(), __import__("threading").get_ident())
                 r = subprocess.run(["clang", "-shared"] + B.SAN + ["-Wl,-Bsymbolic"] + wrap + ["-o", tmp] + lst + ["-lcrypto"], capture_output=True, text=True)
                 if r.returncode != 0:
                     sys.stderr.write("LINK FAILED %s\n%s\n" % (name, r.stderr))
